@@ -80,6 +80,10 @@ def gen_task(rng, lay, i, focus, knobs):
         d['named_env'] = 'env0'
     if rng.random() < knobs.get('bad_ranks_share', 0.0):
         d['ranks'] = 0
+    if knobs.get('partition_share') and \
+            rng.random() < knobs['partition_share']:
+        # the launch methods driven here serve one partition: 0
+        d['partition'] = rng.choice([0, 0, 0, 3])
     t = {'descr': d,
          'at': round(rng.choice([0.0, 0.0, 0.0, rng.uniform(0, 2.0)]), 2),
          'runtime': rng.choice([0.0, 0.05, 0.2, 0.2, 0.5, 1.0, 2.5]),
@@ -204,6 +208,8 @@ def per_rank_exceeds_node(d, lay):
 
 def fits_idle(d, lay):
     if d.get('ranks', 1) <= 0:
+        return False
+    if d.get('partition') not in (None, 0):
         return False
     cap = ranks_per_node_cap(d, lay)
     if cap < 1:
@@ -495,6 +501,15 @@ def make_check(prop, focuses, knobs, nontrivial):
         if focus == 'nodelist':
             from . import nodelist
             return nodelist.gen(rng, tier)
+        if focus == 'jsrun':
+            # scheduler focus with the JSRUN launch method configured: the
+            # agent then runs the ContinuousJsrun scheduler
+            sc = gen_scenario(rng, tier, 'sched', knobs)
+            sc['layout']['lms'] = ['JSRUN']
+            sc['jsrun'] = True
+            for t in sc['tasks']:
+                t['preplaced'] = False
+            return sc
         return gen_scenario(rng, tier, focus, knobs)
 
     def run_(seed, sc, trace=None, tier='quick'):
@@ -576,6 +591,9 @@ INFO = {
              '_schedule_tasks/_schedule_incoming/_schedule_waitpool/'
              '_unschedule_completed/_try_allocation/_change_slot_states)',
              'Continuous.schedule_task/_find_resources/unschedule_task',
+             'ContinuousJsrun.schedule_task/_find_resources/'
+             '_change_slot_states (focus jsrun: JSRUN launch method '
+             'configured, scheduler focus)',
              'executing Popen (work loop, _watch, _to_watcher, control '
              'listener) and NOOP', 'agent staging_output Default',
              'ResourceManager Fork/Slurm _init_from_scratch/_filter_nodes/'
@@ -816,6 +834,14 @@ def oracles(sim, sc, st):
                 if len(gi) != int(g) or len(set(gi)) != len(gi):
                     v(sim, 'C02', 'gpus_exact', 'sched', uid,
                       {'want': g, 'got': s['gpus']}, seq)
+            elif g > 0 and sc.get('jsrun'):
+                # resource sets: ceil(ranks * g) whole GPUs shared by the
+                # ranks of the set - at least the requested share per rank
+                gi = [x for x, _ in s['gpus']]
+                if len(set(gi)) != len(gi) or \
+                        sum(o for _, o in s['gpus']) < g - 1e-9:
+                    v(sim, 'C02', 'gpus_exact', 'sched', uid,
+                      {'want': g, 'got': s['gpus']}, seq)
             elif g > 0:
                 if len(s['gpus']) != 1 or \
                         abs(s['gpus'][0][1] - g) > 1e-9:
@@ -840,6 +866,11 @@ def oracles(sim, sc, st):
         tag = (d.get('tags') or {}).get('colocate')
         if tag is not None:
             tag = str(tag)
+            if d.get('partition') is not None:
+                # colocation tags are scoped by the partition a task names
+                # (documented in the scheduler: "partition id becomes a part
+                # of a co-locate tag")
+                tag = '%s_%s' % (d['partition'], tag)
             mine = set(per_node)
             if tag in colo_nodes:
                 if not mine <= colo_nodes[tag]:
@@ -866,7 +897,8 @@ def oracles(sim, sc, st):
                 and who_is(ev, 'agent_scheduling'):
             for task in ev.get('obj') or []:
                 uid   = task['uid']
-                slots = A.norm_slots(task.get('slots'))
+                slots = A.norm_slots(task.get('slots'),
+                                     jsrun=bool(sc.get('jsrun')))
                 by_app = 'app' if (descr.get(uid) or {}).get('slots') \
                     else 'sched'
                 grants[uid] = grants.get(uid, 0) + 1
@@ -1047,9 +1079,15 @@ def oracle_c04(sim, sc, st):
                   {'places': places}, len(sim.events))
     # bounded liveness in unambiguous situations only ---------------------------
     idle = not L['held']
+    def rs_shared(d):
+        # JSRUN resource sets: ranks sharing a GPU are packed into one
+        # resource set on one node - what fits then is not decided by the
+        # plain per-rank accounting: not judged
+        g = d.get('gpus_per_rank') or 0
+        return bool(sc.get('jsrun')) and g != int(g)
     plain = [u for u in pool if not (descr[u].get('tags') or {}).get(
         'colocate') and not descr[u].get('named_env')
-        and not descr[u].get('slots')]
+        and not descr[u].get('slots') and not rs_shared(descr[u])]
     if idle and pool and len(plain) == len(pool):
         fit = [u for u in pool if fits_idle(descr[u], lay)]
         if len(pool) == 1 and fit:
@@ -1075,10 +1113,15 @@ def oracle_c04(sim, sc, st):
             if f.get('state') != rps.FAILED:
                 continue
             exc = '%s %s' % (f.get('exception'), f.get('exception_detail'))
-            if 'can never be scheduled' in exc or 'does not fit' in exc:
+            by_sched = rps.FAILED in L['sched_reports'].get(uid, [])
+            if 'can never be scheduled' in exc or 'does not fit' in exc or \
+                    by_sched:
+                # (whatever the scheduler gives as reason: a plain task which
+                # fits the idle pilot is not failed by the scheduler)
                 d = descr.get(uid) or {}
                 if not (d.get('tags') or {}).get('colocate') and \
-                        not d.get('slots') and fits_idle(d, lay):
+                        not d.get('slots') and not rs_shared(d) and \
+                        fits_idle(d, lay):
                     v(sim, 'C04', 'fit_failed', 'scheduler', uid,
                       {'descr': short(d), 'layout': short_lay(lay),
                        'exc': exc[:200]}, len(sim.events))
